@@ -9,14 +9,17 @@ package quickfix
 
 import (
 	"bytes"
+	"fmt"
+	"sync/atomic"
 	"time"
 )
 
 // VerifConcSession is a real session driven by session.run().
 type VerifConcSession struct {
-	s    *session
-	in   chan fixIn
-	done chan struct{}
+	s        *session
+	in       chan fixIn
+	done     chan struct{}
+	panicked atomic.Value
 }
 
 // VerifNewConcSession builds the session through sessionFactory.newSession (all settings glue included).
@@ -32,8 +35,13 @@ func VerifNewConcSession(initiator bool, id SessionID, sf MessageStoreFactory, s
 // RunAsync starts the session's event loop in its own goroutine, as acceptor.Start / initiator.Start do.
 func (v *VerifConcSession) RunAsync() {
 	go func() {
+		defer func() {
+			if r := recover(); r != nil {
+				v.panicked.Store(fmt.Sprint(r))
+			}
+			close(v.done)
+		}()
 		v.s.run()
-		close(v.done)
 	}()
 }
 
@@ -64,6 +72,14 @@ func (v *VerifConcSession) Send(m Messagable) error { return v.s.queueForSend(m.
 // StopAsync asks the event loop to stop; Done is closed when run() has returned.
 func (v *VerifConcSession) StopAsync()            { v.s.stop() }
 func (v *VerifConcSession) Done() <-chan struct{} { return v.done }
+
+// Panicked reports a panic that ended the event loop ("" if none).
+func (v *VerifConcSession) Panicked() string {
+	if p, ok := v.panicked.Load().(string); ok {
+		return p
+	}
+	return ""
+}
 
 // Store is the session's message store; read it only after Done.
 func (v *VerifConcSession) Store() MessageStore { return v.s.store }
